@@ -553,8 +553,19 @@ def fam_store_status(tier, base):
     seen = set()
     with open(inputs, "w") as f:
         n, gen = _sim_inputs("MC_StoreStatus", "MC_StoreStatus_sim.cfg", 40 if q else 400, 12, f, seen, keep=120 if q else 2400)
+        # every sequence of 3 (thorough: 4) reports / ticks on recorded entities: all of them on redis (virtual time), a sample on etcd
+        rx = verif.model_check("MC_StoreStatus", "MC_StoreStatus_exh3.cfg" if q else "MC_StoreStatus_exh4.cfg", timeout=3000, workers=1)
+        nx = 0
+        for x in dict.fromkeys(rx.tagged("INPUT")):
+            if x not in seen:
+                seen.add(x)
+                f.write(x + "\n")
+                nx += 1
     b = verif.build_driver("storecmp")
-    verif.run_driver(b, "TestStoreStatus", env={"VERIF_INPUTS": inputs, "VERIF_TRACE": trace, "VERIF_PAR": 120 if q else 300}, timeout=7000)
+    total = n + nx
+    verif.run_driver(b, "TestStoreStatus", env={"VERIF_INPUTS": inputs, "VERIF_TRACE": trace, "VERIF_PAR": 150 if q else 300,
+                                                "VERIF_ETCD_EVERY": max(1, total // (240 if q else 3000))}, timeout=7000)
+    n = total
     os.remove(inputs)
     viols, tr = verif.validate_trace("Trace_StoreStatus", "Trace_StoreStatus.cfg", trace, heap="8g")
     lines = verif.read_lines(trace)
@@ -631,3 +642,30 @@ def fam_select(tier, base):
 prop("C21", "select", "every enumerated node filter; observed = the node names the wrapped resource manager is asked about under that filter (the nodes of the locked callback); non-trivial = filters", _A_CL[:1] + ["real (non-mock) nodes have no engine: they are written directly to store and plugin; their heartbeat is a node status with a long TTL"])
 prop("C20", "select", "lock sequences of node-filtered operations over the enumerated filters (include lists in any order across two pods) + every operation of the cluster family (create, remove, dissociate, realloc, replace, set-node, remove-node, remove-pod, node-resource, remap) with its nested helpers; the locks held on the calling path travel in the context returned by Lock; non-trivial = lock acquisitions judged", _A_CL[:1])
 ALSO["C20"] = ["cluster"]
+
+
+# =========================================================================== Send: C29
+@family("send")
+def fam_send(tier, base):
+    stats = {}
+    for cfg, expect in (("MC_Send_ok.cfg", None), ("MC_Send_repaired.cfg", None)):
+        r = verif.model_check("MC_Send", cfg, timeout=3000)
+        stats[cfg] = (r.distinct, r.generated)
+    rc = verif.model_check("MC_SendCases", "MC_SendCases.cfg", timeout=3000, workers=1)
+    inputs, trace = base + ".in.ndjson", base + ".trace.ndjson"
+    n = verif.emit_inputs(rc, inputs)
+    b = verif.build_driver("cluster")
+    verif.run_driver_sharded(b, "TestClusterSend", inputs, trace, shards=10, timeout=7000)
+    os.remove(inputs)
+    viols, tr = verif.validate_trace("Trace_Send", "Trace_Send.cfg", trace)
+    lines = verif.read_lines(trace)
+    cnt = lambda s: sum(1 for ln in lines if s in ln)
+    return dict(trace=trace, viols=viols, states=sum(v[0] for v in stats.values()), transitions=sum(v[1] for v in stats.values()),
+                configs=["MC_Send_ok.cfg", "MC_Send_repaired.cfg", "MC_SendCases.cfg", "Trace_Send.cfg"], window=1,
+                traces={"*": len(lines)}, samples={"*": [json.loads(x) for x in lines[:3]]}, nontrivial={"C29": len(lines) - cnt('"targets":"missing"')},
+                notes="design: the per-target pipeline (buffer, sender, synchronous pipe, reader) is deadlock-free and finishes with readers that read, refuse or abort (3 targets, 5 chunks, buffer 2; liveness under fairness); code: %d TLC-enumerated cases (8 sizes incl. 0 and chunk-size multiples x 5 target sets x engine reads / refuses / aborts x Send / SendLargeFile) through the real rpc handlers; %d calls hung" % (n, cnt('"class":"hang"')))
+
+
+prop("C29", "send", "every case of MC_SendCases: sizes {0, 1, 2047, 2048, 2049, 4096, 22529, 53248} x targets {one, two, missing, one+missing, duplicated} x engine behaviour of the first target {reads all, refuses, aborts after 1.5 KB} x {Send, SendLargeFile}; non-trivial = cases with an existing target",
+     _A_CL[:1] + ["rpc.Vibranium.Send / SendLargeFile are called directly with an in-memory server stream (no network); the fake engine's copy call records bytes, owner and mode; content compared by length and SHA-256 prefix",
+                  "a call that has not returned after 8 s (normal: < 50 ms) is a hang"])
